@@ -313,6 +313,7 @@ def run_impl(case):
     saved = bps.time
     bps.time = fake
     ncp = 0
+    nmsg = 0
     ret = "<none>"
     try:
         if case["kind"] == "repeat":
@@ -331,6 +332,10 @@ def run_impl(case):
                         outcome = "running"
                         break
                 log.append(canon(m))
+                nmsg += 1
+                if nmsg > 600:  # no legitimate case gets near this: the generator does not stop
+                    outcome = "runaway"
+                    break
                 m = gen.send(None)
         except StopIteration as e:
             outcome = "returned"
@@ -339,7 +344,7 @@ def run_impl(case):
             outcome = "ValueError"
         except Exception as e:  # noqa: BLE001
             outcome = "raised:" + type(e).__name__
-        if outcome == "running":
+        if outcome in ("running", "runaway"):
             try:
                 gen.close()  # the consumer walks away
             except Exception:  # noqa: BLE001
@@ -378,7 +383,7 @@ def comparable(case, obs):
     if case["kind"] == "count":
         # strip the stage/open_run prefix and the close_run/unstage suffix (checked by the oracle)
         i0 = next((i for i, e in enumerate(tr) if e == ["msg", "open_run:"]), None)
-        i1 = next((i for i, e in enumerate(tr) if e == ["msg", "close_run:"]), len(tr) if obs["end"] == "running" else None)
+        i1 = next((i for i, e in enumerate(tr) if e == ["msg", "close_run:"]), len(tr) if obs["end"] in ("running", "runaway") else None)
         if i0 is None or i1 is None:
             return {"trace": "<no run>", "end": obs["end"]}
         tr = tr[i0 + 1 : i1]
@@ -418,7 +423,7 @@ def oracle(case, obs, log):
     if kind == "count":
         names = [e for e in events if e[0] != "time"]
         i0 = next((i for i, e in enumerate(events) if e == ["msg", "open_run:"]), None)
-        cut = obs["end"] == "running"
+        cut = obs["end"] in ("running", "runaway")
         i1 = next((i for i, e in enumerate(events) if e == ["msg", "close_run:"]), len(events) if cut else None)
         nd = case["ndet"]
         want_pre = [["msg", f"stage:d{i}"] for i in range(nd)] + [["msg", "open_run:"]]
@@ -477,6 +482,9 @@ def oracle(case, obs, log):
         bad.append((f"value-error:spurious:{dk}", f"num={num}, delays {case['delay']} suffice but ValueError was raised after {nrep} repetitions"))
     if finite and num is not None and nrep > L + 1:
         bad.append((f"value-error:too-many-repetitions:{dk}", f"{L} delays allow {L + 1} repetitions but {nrep} ran (num={num})"))
+    if obs["end"] == "runaway":
+        bad.append(("repetitions:generator-does-not-stop", f"more than 600 messages for num={num}, stop_after={case.get('stop_after')}; {nrep} repetitions so far"))
+        return bad
     if obs["end"].startswith("raised:"):
         bad.append(("unexpected-exception", f"{obs['end']} after {nrep} repetitions"))
     # ---- exactly num repetitions
